@@ -191,6 +191,9 @@ def _j(v):
 
 
 # ---------------------------------------------------------------------------------------------------- catalogue
+SL = slice
+
+
 def cases(tier):
     import synapgrad.functional as F
     cs = []
@@ -280,6 +283,35 @@ def cases(tier):
         for s_, e in itertools.product(range(-n - 1, n + 2), repeat=2):
             add("functional.flatten", {"shape": shape, "start": s_, "end": e}, [("a", shape, ANY)], lambda T, s_=s_, e=e: F.flatten(T["a"], s_, e),
                 lambda A, s_=s_, e=e: R.flatten(A["a"], s_, e))
+    # ---- zero-extent shapes (empty batches): "all shapes" includes them; results are empty/neutral, never an error
+    Z = [(0,), (0, 3), (2, 0), (2, 0, 3)]
+    for sh in Z:
+        n = len(sh)
+        add("functional.add", {"shapes": [sh, sh[-1:]], "zero_extent": True}, [("a", sh, ANY), ("b", sh[-1:], ANY)], lambda T: F.add(T["a"], T["b"]), lambda A: R.binary(A["a"], A["b"], lambda x, y: x + y))
+        add("functional.mul", {"shapes": [sh, ()], "zero_extent": True}, [("a", sh, ANY), ("b", (), ANY)], lambda T: F.mul(T["a"], T["b"]), lambda A: R.binary(A["a"], A["b"], lambda x, y: x * y))
+        add("functional.exp", {"shape": sh, "zero_extent": True}, [("a", sh, ANY)], lambda T: F.exp(T["a"]), lambda A: R.unary(A["a"], lambda x: S.of(x).exp()))
+        for dim in [None] + list(range(-n, n)):
+            for keep in (False, True):
+                add("functional.sum", {"shape": sh, "dim": dim, "keepdims": keep, "zero_extent": True}, [("a", sh, ANY)], lambda T, dim=dim, keep=keep: F.sum(T["a"], dim, keep),
+                    lambda A, dim=dim, keep=keep: R.reduce(A["a"], dim, keep, "sum"))
+        for s_, e in itertools.product(range(-n, n), repeat=2):
+            add("functional.flatten", {"shape": sh, "start": s_, "end": e, "zero_extent": True}, [("a", sh, ANY)], lambda T, s_=s_, e=e: F.flatten(T["a"], s_, e),
+                lambda A, s_=s_, e=e: R.flatten(A["a"], s_, e))
+        for d0, d1 in itertools.product(range(n), repeat=2):
+            add("functional.transpose", {"shape": sh, "dim0": d0, "dim1": d1, "zero_extent": True}, [("a", sh, ANY)], lambda T, d0=d0, d1=d1: F.transpose(T["a"], d0, d1),
+                lambda A, d0=d0, d1=d1: R.transpose(A["a"], d0, d1))
+        for dim in range(-n - 1, n + 1):
+            add("functional.unsqueeze", {"shape": sh, "dim": dim, "zero_extent": True}, [("a", sh, ANY)], lambda T, dim=dim: F.unsqueeze(T["a"], dim), lambda A, dim=dim: R.unsqueeze(A["a"], dim))
+        add("functional.reshape", {"shape": sh, "target": (0, -1) if False else sh[::-1], "zero_extent": True}, [("a", sh, ANY)], lambda T, sh=sh: F.reshape(T["a"], sh[::-1]),
+            lambda A, sh=sh: R.reshape(A["a"], sh[::-1]))
+        add("functional.stack", {"shape": sh, "count": 2, "dim": 0, "zero_extent": True}, [("a", sh, ANY), ("b", sh, ANY)], lambda T: F.stack([T["a"], T["b"]], 0),
+            lambda A: R.stack([A["a"], A["b"]], 0))
+    add("functional.concat", {"shapes": [(0, 3), (2, 3)], "dim": 0, "zero_extent": True}, [("a", (0, 3), ANY), ("b", (2, 3), ANY)], lambda T: F.concat([T["a"], T["b"]], 0),
+        lambda A: R.concat([A["a"], A["b"]], 0))
+    add("functional.matmul", {"shapes": [(0, 3), (3, 2)], "zero_extent": True}, [("a", (0, 3), ANY), ("b", (3, 2), ANY)], lambda T: F.matmul(T["a"], T["b"]), lambda A: R.matmul(A["a"], A["b"]))
+    add("functional.matmul", {"shapes": [(2, 0), (0, 2)], "zero_extent": True}, [("a", (2, 0), ANY), ("b", (0, 2), ANY)], lambda T: F.matmul(T["a"], T["b"]), lambda A: R.matmul(A["a"], A["b"]))
+    for ix, tag in [(SL(0, 0), "empty slice"), ([], "empty list"), (SL(3, 1), "reversed bounds")]:
+        add("Tensor.__getitem__", {"shape": (4, 3), "index": tag, "zero_extent": True}, [("a", (4, 3), ANY)], lambda T, ix=ix: T["a"][ix], lambda A, ix=ix: R.index(A["a"], ix))
     add("Tensor.flatten", {"shape": (2, 3, 2), "args": "defaults"}, [("a", (2, 3, 2), ANY)], lambda T: T["a"].flatten(), lambda A: R.flatten(A["a"]))
     for shape in [(1,), (1, 3), (2, 1), (1, 2, 1), (2, 3), (), (1, 1)]:
         n = len(shape)
@@ -349,6 +381,8 @@ def pyvc_targets():
         s.pc.append(n <= 6)
         if rank is not None:
             s.pc.append(n == rank)
+            for i in range(rank):
+                s.pc.append(shp[i] >= 0)        # extents, zero included
         return s, [x, st_, en], {"shape": shp, "n": n, "start": st_, "end": en, "captured": captured, "rank": rank}
 
     def ens_flat(ctx, s, out):
@@ -363,15 +397,57 @@ def pyvc_targets():
         tgt = s.glob.get("__reshape_target")
         cl = [("accepts_only_legal_dims", legal)]
         if ctx["rank"] is not None and tgt is not None and z3.is_expr(tgt) and z3.is_seq(tgt):
-            minus1 = z3.Unit(z3.IntVal(-1))
-            expect = z3.If(n == 0, minus1, z3.Concat(z3.SubSeq(shp, 0, ns), minus1, z3.SubSeq(shp, ne + 1, n - ne - 1)))
-            cl.append(("reshape_target_is_prefix_minus1_suffix", z3.Implies(legal, tgt == expect)))
+            # the target handed to reshape must be one NumPy accepts and that means "dims a..b merged": prefix ++ [d] ++ suffix with
+            # d = the product of the merged extents, or d = -1 where NumPy can infer it (the remaining extents are all non-zero)
+            rank = ctx["rank"]
+            ext = [shp[i] for i in range(rank)]
+            if rank == 0:
+                cl.append(("reshape_target_merges_dims_start_to_end", z3.Implies(legal, z3.And(z3.Length(tgt) == 1, z3.Or(tgt[0] == 1, tgt[0] == -1)))))
+            for a in range(rank):
+                for b in range(a, rank):
+                    pre = z3.Solver()
+                    pre.add(*s.pc)
+                    pre.add(legal, ns == a, ne == b)
+                    if pre.check() == z3.unsat:
+                        continue                # this (a, b) cannot occur on this path (linear integer pre-check); the clause would be vacuous
+                    mid, rest = z3.IntVal(1), z3.IntVal(1)
+                    for i in range(rank):
+                        if a <= i <= b:
+                            mid = mid * ext[i]
+                        else:
+                            rest = rest * ext[i]
+                    parts = [z3.Length(tgt) == rank - (b - a)] + [tgt[i] == ext[i] for i in range(a)] + [tgt[a + 1 + k] == ext[b + 1 + k] for k in range(rank - b - 1)]
+                    parts.append(z3.Or(tgt[a] == mid, z3.And(tgt[a] == -1, rest != 0)))
+                    cl.append(("reshape_target_merges_dims_start_to_end", z3.Implies(z3.And(legal, ns == a, ne == b), z3.And(*parts))))
         return cl
+    def replay_flat(ctx, model, clause):
+        """run the real flatten natively on zeros of the counter-model's shape (possible whenever the shape has few elements, e.g. a zero extent)"""
+        from ..symreal import shim
+        rank = ctx["rank"]
+        if rank is None:
+            return {"reproduced": False, "note": "no concrete rank"}
+        shape = tuple(model.eval(ctx["shape"][i], model_completion=True).as_long() for i in range(rank))
+        sd, ed = (model.eval(ctx[k], model_completion=True).as_long() for k in ("start", "end"))
+        size = int(np.prod(shape)) if shape else 1
+        rep = {"shape": list(shape), "start_dim": sd, "end_dim": ed}
+        if size > 10**6:
+            return {**rep, "reproduced": False, "note": "counter-model shape too large to allocate"}
+        m = max(rank, 1)
+        a, b = sd % m, ed % m
+        want = shape[:a] + (int(np.prod(shape[a:b + 1])) if shape else 1,) + shape[b + 1:]
+        with shim.native():
+            import synapgrad.functional as F
+            from synapgrad.tensor import Tensor
+            try:
+                got = tuple(F.flatten(Tensor(np.zeros(shape)), sd, ed).shape)
+            except Exception as e:
+                return {**rep, "reproduced": True, "expected_shape": list(want), "native_exception": "%s: %s" % (type(e).__name__, e)}
+        return {**rep, "expected_shape": list(want), "actual_shape": list(got), "reproduced": got != want, "native_satisfies_contract": got == want}
     ts.append(Target(FN + "flatten[argument normalisation]", "synapgrad/functional.py", "flatten", setup_flat, ens_flat,
                      executor=lambda: TM.make_executor(havoc={"Device", "RuntimeError", "TypeError", "ValueError", "IndexError"})))
     for rank in range(0, 6):
         # the reshape target, rank by rank (symbolic extents, every integer start/end): z3's sequence solver needs a concrete length
-        ts.append(Target(FN + "flatten[reshape target, rank %d]" % rank, "synapgrad/functional.py", "flatten", lambda ex, rank=rank: setup_flat(ex, rank), ens_flat,
+        ts.append(Target(FN + "flatten[reshape target, rank %d]" % rank, "synapgrad/functional.py", "flatten", lambda ex, rank=rank: setup_flat(ex, rank), ens_flat, replay=replay_flat,
                          executor=lambda: TM.make_executor(havoc={"Device", "RuntimeError", "TypeError", "ValueError", "IndexError"}), key={"rank": rank}))
 
     # ---- unfold_dim: validation predicate for every rank / dimension / size / step
@@ -487,6 +563,42 @@ def native_part(run):
             run.violation("synapgrad.%s.value" % name, "%s gave shape %s" % (name, t.shape), key={"constructor": name}, replay={})
 
 
+def dtype_mixed_part(run):
+    """bounded, native: operator forms on tensors of EVERY dtype the constructors produce (float32, float64, int32, int64 as returned by randint / Tensor(int array))
+    with python int / float scalars and with tensors: values equal the NumPy result on the same arrays (an integer tensor times 0.5 is not truncated)"""
+    import operator as op
+    import synapgrad
+    from synapgrad.tensor import Tensor
+    rng = np.random.RandomState(5)
+    forms = [("__add__", op.add), ("__radd__", lambda a, c: c + a), ("__sub__", op.sub), ("__rsub__", lambda a, c: c - a), ("__mul__", op.mul), ("__rmul__", lambda a, c: c * a),
+             ("__truediv__", op.truediv), ("__rtruediv__", lambda a, c: c / a)]
+    for dt in (np.float32, np.float64, np.int32, np.int64):
+        for shape in [(), (3,), (2, 3)]:
+            base = np.asarray(rng.randint(1, 9, size=shape)).astype(dt) if np.issubdtype(dt, np.integer) else np.asarray(rng.rand(*shape) * 8 + 1).astype(dt)
+            for c in (2, -3, 0.5, 0.25, -1.5):
+                for name, f in forms:
+                    if name == "__rtruediv__" and np.issubdtype(dt, np.integer):
+                        continue        # scalar / integer tensor goes through tensor ** -1, which NumPy refuses for integers: not a documented form, left out
+                    run.rt(("dtype-mixed", np.dtype(dt).name, shape, c, name))
+                    key = {"op": "Tensor." + name, "dtype": np.dtype(dt).name, "shape": list(shape), "scalar": c, "scalar_type": type(c).__name__}
+                    want = f(np.asarray(base, dtype=np.float64), c)
+                    try:
+                        got = f(Tensor(base.copy()), c)
+                    except Exception as e:
+                        run.violation("Tensor.%s.accepts_python_scalar" % name, "%s tensor %s %r raised %s: %s" % (np.dtype(dt).name, name, c, type(e).__name__, e), key=key, replay=key)
+                        continue
+                    tol = 1e-12 if dt == np.float64 else 1e-5      # "to rounding of the operand dtype"; integer operands: PyTorch answers in float32
+                    if got.shape != want.shape or not np.allclose(np.asarray(got.data, dtype=np.float64), want, rtol=tol, atol=tol):
+                        run.violation("Tensor.%s.value_with_python_scalar" % name, "%s tensor %s with scalar %r: got %s, NumPy/PyTorch give %s" %
+                                      (np.dtype(dt).name, base.tolist(), c, np.asarray(got.data).tolist(), want.tolist()), key=key,
+                                      replay={**key, "operand": base.tolist(), "actual": np.asarray(got.data).tolist(), "expected": want.tolist()})
+    t = synapgrad.randint(1, 9, (2, 3))
+    run.rt(("dtype-mixed", "randint*0.5"))
+    if not np.allclose(np.asarray((t * 0.5).data, dtype=np.float64), np.asarray(t.data, dtype=np.float64) * 0.5):
+        run.violation("Tensor.__mul__.value_with_python_scalar", "randint(...) * 0.5 = %s for %s" % ((t * 0.5).data.tolist(), t.data.tolist()),
+                      key={"op": "Tensor.__mul__", "dtype": str(t.data.dtype), "scalar": 0.5, "via": "randint"}, replay={})
+
+
 def selftest(run):
     """refsem against NumPy and torch, natively"""
     import torch
@@ -556,7 +668,7 @@ def main(tier="quick", seed=0, procs=None, only=None):
     run.bounds = {"symreal": "ranks 0-3 (4-5 in the thorough tier), extents <=4; every dim in [-n-1, n] incl. out-of-range, tuples of dims, keepdims, every (source,destination), (dim0,dim1), "
                              "(start,end), (dimension,size,step<=3) incl. illegal ones, 45 index expressions, operator and reflected forms with python scalars",
                   "pyvc": "flatten: every rank <=6 with symbolic extents and every integer (start,end); unfold_dim validation and matmul rank guard: all integers",
-                  "native": "iteration patterns (single, nested, zip) on 4 shapes; 16 constructors"}
+                  "native": "iteration patterns (single, nested, zip) on 4 shapes; 16 constructors; 8 operator forms x 4 tensor dtypes (float32/64, int32/64) x 3 shapes x 5 python scalars"}
     run.rule = "one case = one (op, shapes, arguments); legality and value come from vf/spec/refsem.py; each result element is one equality obligation"
     cs = cases(tier)
     if only:
@@ -565,6 +677,7 @@ def main(tier="quick", seed=0, procs=None, only=None):
     run_catalogue(run, cs, seed=seed, procs=procs)
     try:
         native_part(run)
+        dtype_mixed_part(run)
         selftest(run)
     except Exception as e:
         run.error("native part / self-test failed", e)
